@@ -6,7 +6,7 @@ from concurrent.futures import ThreadPoolExecutor
 
 ROOT = os.path.dirname(os.path.dirname(os.path.dirname(os.path.abspath(__file__))))
 REPO = os.environ.get('VERIF_REPO', '/repo')
-BUILD = os.path.join(ROOT, '.build')
+BUILD = os.path.join(ROOT, os.environ.get('VERIF_BUILD_DIR', '.build'))   # alternative build dirs let a scratch copy of the repository be checked in parallel
 RUN_DIR = os.path.join(BUILD, 'run')
 # measured in this VM: page-fault bound, throughput saturates at ~8 plain / ~4 ASan processes (DESIGN.md section 11)
 NCPU = int(os.environ.get('VERIF_JOBS', '10'))
@@ -110,6 +110,12 @@ def run_case(case, variant='plain', timeout=None, keep=False):
             res = None
     if res is None:
         res = {'failures': []}
+        if os.path.exists(rp + '.early'):   # invariant violations recorded online before the process died
+            try:
+                with open(rp + '.early') as f:
+                    res['failures'] = [json.loads(l) for l in f if l.strip()]
+            except Exception:
+                pass
         if timed_out:
             res['outcome'] = 'HANG'; res['detail'] = 'no scheduling point reached within %ds wall clock' % timeout; res['site'] = 'watchdog'
         elif rc == 77 or 'AddressSanitizer' in err:
